@@ -240,6 +240,94 @@ func checkC23(p *Prog, r *Report) {
 		r.check(zero, rule, "seeds start at depth 0", p.pos(findRev.Pos()), fnName(findRev), "node.depth is the constant 0 for every seed", "a seed is pushed with a non-zero depth: edges between a rule and its own hidden sub-targets are charged")
 	}
 	p.revdepsIndexComplete(r, "E5.revdeps-index-complete")
+	// the visited set of a path search is valid for one goal only: the set handed to the DFS is the memo entry keyed by
+	// the label of the DFS's goal argument
+	{
+		rl := "E7.visited-set-belongs-to-the-goal"
+		sp := p.Fn("query", "somepath.somePath")
+		SP := p.Fn("query", "somepath.SomePath")
+		if sp == nil || SP == nil {
+			r.unresolved(rl, "query.somepath.somePath / SomePath")
+		} else {
+			labelOf := func(v ssa.Value) ssa.Value {
+				// the label a *BuildTarget argument was looked up from
+				if c, ok := v.(*ssa.Call); ok && strings.HasSuffix(calleeName(&c.Call), "TargetOrDie") && len(c.Call.Args) > 1 {
+					return c.Call.Args[len(c.Call.Args)-1]
+				}
+				return v
+			}
+			keyOf := func(v ssa.Value, in *ssa.Function) ssa.Value {
+				for x := range backSlice(v, SliceOpts{StopAtCall: func(*ssa.Call) bool { return true }}) {
+					if lk, ok := x.(*ssa.Lookup); ok && tagsOf(lk.X, SliceOpts{})["query.somepath.memo"] {
+						return lk.Index
+					}
+				}
+				return nil
+			}
+			n, bad := 0, 0
+			for _, f := range p.Funcs("query") {
+				if f == somePath {
+					continue // the recursion passes its own set and goal on unchanged
+				}
+				for _, ci := range callsInFn(f, somePath) {
+					cc := callCommon(ci)
+					if len(cc.Args) < 4 {
+						continue
+					}
+					n++
+					goal := labelOf(cc.Args[2])
+					seenArg := cc.Args[3]
+					if key := keyOf(seenArg, f); key != nil {
+						if key != goal {
+							bad++
+						}
+						continue
+					}
+					// the set comes in as a parameter: look at the callers of f
+					prm, isPrm := seenArg.(*ssa.Parameter)
+					goalPrm, goalIsPrm := goal.(*ssa.Parameter)
+					if !isPrm || !goalIsPrm {
+						bad++
+						continue
+					}
+					idxOf := func(q *ssa.Parameter) int {
+						for k, x := range f.Params {
+							if x == q {
+								return k
+							}
+						}
+						return -1
+					}
+					for _, cs := range p.callers(f) {
+						ac := callCommon(cs)
+						si, gi := idxOf(prm), idxOf(goalPrm)
+						if si < 0 || gi < 0 || si >= len(ac.Args) || gi >= len(ac.Args) {
+							bad++
+							continue
+						}
+						// the set argument: result of a helper whose own parameter keys the memo, or a lookup here
+						var key ssa.Value
+						if hc, ok := ac.Args[si].(*ssa.Call); ok && hc.Call.StaticCallee() != nil && len(hc.Call.Args) > 0 {
+							h := hc.Call.StaticCallee()
+							if len(h.Params) > 0 {
+								for _, rc := range returnCases(h, 0) {
+									if k := keyOf(rc.Vals[0], h); k != nil && k == ssa.Value(h.Params[len(h.Params)-1]) {
+										key = hc.Call.Args[len(hc.Call.Args)-1]
+									}
+								}
+							}
+						} else {
+							key = keyOf(ac.Args[si], cs.Parent())
+						}
+						if key == nil || key != ac.Args[gi] {
+							bad++
+						}
+					}
+				}
+			}
+			r.check(n > 0 && bad == 0, rl, "the visited set passed to the path search is the one remembered for its goal", p.pos(sp.Pos()), fnName(sp), itoa(n)+" call(s) of the DFS, each with memo[goal]", "a path search is handed the visited set remembered for another goal (e.g. the set of target2 for the reverse search towards target1): targets explored while failing to reach one goal are skipped when looking for another, and an existing path is reported as missing")
+		}
+	}
 	// (4)
 	rule = "E5.revdeps-depth-accounting"
 	{
@@ -327,6 +415,37 @@ func (p *Prog) revdepsIndexComplete(r *Report, rule string) {
 	}
 	if n == 0 {
 		r.unresolved(rule, "loop over graph.AllTargets() in query.buildRevdeps")
+	}
+	// the synthetic edge from a subrepo's generating target to the targets inside it is added for every such target when
+	// asked for (includeSubrepos), under no further condition: leaving it out for some of them lengthens their distance
+	nE, extra := 0, ""
+	eachInstr(br, false, func(_ *ssa.Function, i ssa.Instruction) {
+		mu, ok := i.(*ssa.MapUpdate)
+		if !ok || !tagsOf(mu.Key, SliceOpts{})["core.Subrepo.Target"] {
+			return
+		}
+		nE++
+		for _, f := range factsAt(mu) {
+			switch v := f.V.(type) {
+			case *ssa.Parameter:
+				// includeSubrepos
+			case *ssa.BinOp:
+				if isNilConst(v.X) || isNilConst(v.Y) {
+					continue
+				}
+				if v.Op == token.LSS || v.Op == token.GEQ {
+					continue // loop bounds (rangeindex < len)
+				}
+				extra = v.String()
+			case *ssa.Extract:
+				// ok flags of lookups / range iteration in the loop
+			case *ssa.Phi, *ssa.UnOp, *ssa.Call:
+				extra = f.V.String()
+			}
+		}
+	})
+	if nE > 0 {
+		r.check(extra == "", rule, "every target inside a subrepo gets the edge from the subrepo's target", p.pos(br.Pos()), fnName(br), "the edge is added under includeSubrepos and the two nil checks only", "the implicit edge from a subrepo's generating target is added only for some of the subrepo's targets ("+extra+"): the others are reached through longer chains, so a level-limited revdeps query on the generating target (the CLI default is --level 1) leaves them and what depends on them out")
 	}
 }
 
